@@ -79,6 +79,13 @@ static long long v_strtoll10(const char *nptr, char **endptr, long long lo, long
 static long v_strtol(const char *n, char **e, int base) { (void) base; return (long) v_strtoll10(n, e, LONG_MIN, LONG_MAX); }
 static long long v_strtoll(const char *n, char **e, int base) { (void) base; return v_strtoll10(n, e, LLONG_MIN, LLONG_MAX); }
 
+static size_t v_strnlen(const char *s, size_t n)
+{
+	size_t i = 0;
+	while (i < n && s[i] != '\0') i++;
+	return i;
+}
+
 static int v_memcmp(const void *a, const void *b, size_t n)
 {
 	const unsigned char *x = a, *y = b;
@@ -182,6 +189,7 @@ static int v_snprintf(char *out, size_t cap, const char *fmt, ...)
 #define isalnum(c) v_isalnum(c)
 #define isgraph(c) v_isgraph(c)
 #define memcmp(a, b, n) v_memcmp(a, b, n)
+#define strnlen(s, n) v_strnlen(s, n)
 #define qsort(b, n, s, c) v_qsort(b, n, s, c)
 #define snprintf v_snprintf
 #define vsnprintf v_vsnprintf
